@@ -61,6 +61,19 @@ ReplayM(mem, mods, en, env) ==
        ELSE LET ad == AddrNat(a) IN
             IF ad < 0 THEN Unknown ELSE ReplayM(StoreBits(mem, ad, v, en), Tail(mods), en, env)
 
-(* candidate set of a vec, with mods read (C19) *)
-AltsM(e, env) == IF e.k = "vec" THEN {EvalM(e.l[i], env) : i \in 1..Len(e.l)} ELSE {EvalM(e, env)}
+(* candidate set of a tree (C19): the alternatives of every vec met on the way down through  *)
+(* vec / slc / comp / mem-through-a-vector-valued-pointer nodes; top, vecw and anything the     *)
+(* reference semantics cannot value contribute Unknown                                         *)
+RECURSIVE AltSet(_, _), AltParts(_, _, _)
+AltSet(e, env) ==
+  CASE e.k = "vec" -> UNION {AltSet(e.l[i], env) : i \in 1..Len(e.l)}
+    [] e.k = "slc" -> {IF IsU(x) THEN Unknown ELSE Slice(x, e.pos, e.w) : x \in AltSet(e.x, env)}
+    [] e.k = "comp" -> AltParts(e.parts, 1, env)
+    [] e.k = "mem" /\ e.a.k = "ptr" /\ e.a.base.k = "vec" ->
+         UNION {AltSet([e EXCEPT !.a = [e.a EXCEPT !.base = e.a.base.l[i]]], env) : i \in 1..Len(e.a.base.l)}
+    [] OTHER -> {EvalM(e, env)}
+AltParts(P, i, env) ==
+  IF i > Len(P) THEN {<<>>}
+  ELSE LET rest == AltParts(P, i + 1, env) IN
+       {IF IsU(a) \/ IsU(b) THEN Unknown ELSE a \o b : a \in AltSet(P[i].t, env), b \in rest}
 =============================================================================
